@@ -3039,19 +3039,25 @@ class LocalGitClient(GitClient):
 
             ref_status: dict[bytes, str | None] = {}
 
+            def missing(sha: ObjectID) -> bool:
+                return sha != ZERO_SHA and sha not in target.object_store
+
             if atomic:
                 # Validate all ref updates first before applying any
                 for refname, new_sha1 in new_refs.items():
                     old_sha1 = old_refs.get(refname, ZERO_SHA)
-                    if new_sha1 != ZERO_SHA:
-                        current = target.refs.get_peeled(refname)
-                        if current is not None and current != old_sha1:
+                    try:
+                        current = target.refs[refname]
+                    except KeyError:
+                        current = ZERO_SHA
+                    if missing(new_sha1):
+                        ref_status[refname] = "missing necessary objects"
+                    elif current != old_sha1:
+                        if new_sha1 != ZERO_SHA:
                             ref_status[refname] = (
                                 f"unable to set {refname!r} to {new_sha1!r}"
                             )
-                    else:
-                        current = target.refs.get_peeled(refname)
-                        if current is not None and current != old_sha1:
+                        else:
                             ref_status[refname] = "unable to remove"
                 if ref_status:
                     # Atomic push: if any ref would fail, fail them all
@@ -3065,7 +3071,11 @@ class LocalGitClient(GitClient):
             for refname, new_sha1 in new_refs.items():
                 old_sha1 = old_refs.get(refname, ZERO_SHA)
                 if new_sha1 != ZERO_SHA:
-                    if not target.refs.set_if_equals(refname, old_sha1, new_sha1):
+                    if missing(new_sha1):
+                        msg = f"missing necessary objects for {refname!r}"
+                        _progress(msg.encode())
+                        ref_status[refname] = msg
+                    elif not target.refs.set_if_equals(refname, old_sha1, new_sha1):
                         msg = f"unable to set {refname!r} to {new_sha1!r}"
                         _progress(msg.encode())
                         ref_status[refname] = msg
